@@ -47,6 +47,8 @@ TEMPLATES = [
     ('asyncwith', ['import contextlib', '@contextlib.asynccontextmanager', 'async def m{k}():',
                    '    T({k}); yield', 'async with m{k}():', '    P({k})']),
     ('asyncfor',  ['async def y{k}():', '    yield T({k}, 1)', 'async for x{k} in y{k}():', '    P({k})']),
+    # prints, then raises: always written with its traceback want (an expected exception)
+    ('raise',     ['PX({k})']),
 ]
 TEMPLATE = dict(TEMPLATES)
 STRING_TEMPLATES = {'mstring'}
@@ -138,23 +140,29 @@ def ref_exec(stmts, extra_pre=''):
     ns = {'TRACE': []}
     exec(PRE + extra_pre, ns)
     outs = []
-    for stmt_lines in stmts:
+    raised = ns['__raised__'] = {}
+    for si, stmt_lines in enumerate(stmts):
         src = '\n'.join(stmt_lines) + '\n'
         buf = io.StringIO()
         tree = ast.parse(src)
         val = NOVAL
-        with contextlib.redirect_stdout(buf):
-            if len(tree.body) == 1 and isinstance(tree.body[0], ast.Expr):
-                code = compile(src.strip(), '<ref>', 'eval', flags=ast.PyCF_ALLOW_TOP_LEVEL_AWAIT)
-                r = eval(code, ns)
-                if code.co_flags & CO_COROUTINE:
-                    r = asyncio.run(r)
-                val = r
-            else:
-                code = compile(src, '<ref>', 'exec', flags=ast.PyCF_ALLOW_TOP_LEVEL_AWAIT)
-                r = eval(code, ns)
-                if code.co_flags & CO_COROUTINE:
-                    asyncio.run(r)
+        try:
+            with contextlib.redirect_stdout(buf):
+                if len(tree.body) == 1 and isinstance(tree.body[0], ast.Expr):
+                    code = compile(src.strip(), '<ref>', 'eval', flags=ast.PyCF_ALLOW_TOP_LEVEL_AWAIT)
+                    r = eval(code, ns)
+                    if code.co_flags & CO_COROUTINE:
+                        r = asyncio.run(r)
+                    val = r
+                else:
+                    code = compile(src, '<ref>', 'exec', flags=ast.PyCF_ALLOW_TOP_LEVEL_AWAIT)
+                    r = eval(code, ns)
+                    if code.co_flags & CO_COROUTINE:
+                        asyncio.run(r)
+        except Exception as ex:
+            import traceback
+            raised[si] = traceback.format_exception_only(type(ex), ex)[-1]
+            val = NOVAL
         outs.append((buf.getvalue(), val))
     return ns, outs
 
@@ -171,6 +179,7 @@ def _flags():
             'value': lastval is not NOVAL and lastval is not None,
             'nocode': not ast.parse('\n'.join(instantiate(name, 1))).body,
             'nstmts': len(st),
+            'raises': bool(ns['__raised__']),
         }
     return fl
 
@@ -181,12 +190,15 @@ SEPS = ('none', 'blank', 'prose')
 FRAMES = [(0, False), (4, False), (8, False), ('tab', False), (0, True), (4, True)]
 
 
-def all_items():
+SHIFT_SEPS = ('in', 'out')      # directly after a want: the following lines are indented 4 more / 4 less
+
+
+def all_items(shift=False):
     out = []
     for name, _ in TEMPLATES:
         for style in styles_for(name):
             for want in (False, True):
-                for sep in SEPS:
+                for sep in SEPS + (SHIFT_SEPS if shift and want else ()):
                     out.append((name, style, want, sep))
     return out
 
@@ -202,13 +214,17 @@ def frame_cost(fr):
 
 # ---- abstract model used by the explorer (parent side) ----
 def model_init():
-    return (False, 0)          # (output pending since the last want, items so far)
+    return (False, 0, 0)       # (output pending since the last want, items so far, extra indentation / 4)
 
 
 def item_enabled(S, it):
-    pending, n = S
+    pending, n, off = S
     name, style, want, sep = it
     f = FLAGS[name]
+    if sep == 'out' and off <= 0:
+        return False
+    if f['raises']:
+        return bool(want)       # a raising statement is only well formed with its traceback want
     if not want:
         return True
     if f['value']:
@@ -219,10 +235,11 @@ def item_enabled(S, it):
 
 
 def model_step(S, it):
-    pending, n = S
+    pending, n, off = S
     name, style, want, sep = it
     pending = (pending or FLAGS[name]['prints']) and not want
-    return (pending, n + 1)
+    off += {'in': 1, 'out': -1}.get(sep, 0)
+    return (pending, n + 1, off)
 
 
 # ---- concretisation ----
@@ -238,19 +255,25 @@ def build(frame, items, extra_pre=''):
     doc = []
     pending = ''
     oi = 0
+    off = 0
+
+    def emit(ls):
+        doc.extend([(' ' * off + l) if l else l for l in ls])
     echo_ok = []       # indexes of statements whose value may legitimately be echoed into stdout
     wants = []         # (index of last statement before the want, want text)
     src_lines = []     # (docstring line index) of every source line
     for (name, style, want, sep), st in zip(items, per_item):
         lastval = NOVAL
         for s in st:
-            doc += render_stmt(s, stmt_style(name, s, style))
+            emit(render_stmt(s, stmt_style(name, s, style)))
             out, val = outs[oi]
             oi += 1
             pending += out
             lastval = val
         if want:
-            if lastval is not NOVAL and lastval is not None and not pending:
+            if (oi - 1) in ns['__raised__']:
+                w = 'Traceback (most recent call last):\n' + ns['__raised__'][oi - 1]
+            elif lastval is not NOVAL and lastval is not None and not pending:
                 w = repr(lastval) + '\n'
                 echo_ok.append(oi - 1)
             elif pending:
@@ -258,12 +281,16 @@ def build(frame, items, extra_pre=''):
             else:
                 raise ValueError('want not enabled here: %r' % (items,))
             wants.append((oi - 1, w))
-            doc += w.split('\n')[:-1]
+            emit(w.split('\n')[:-1])
             pending = ''
         if sep == 'blank':
             doc.append('')
         elif sep == 'prose':
-            doc += ['', 'Some prose.', '']
+            emit(['', 'Some prose.', ''])
+        elif sep == 'in':
+            off += 4
+        elif sep == 'out':
+            off -= 4
     indent, lead = frame
     pad = '\t' if indent == 'tab' else ' ' * indent
     lines = [pad + l if l else l for l in doc]
